@@ -291,7 +291,9 @@ func checkC09(e *Engine, r *Report) {
 			}
 		}
 		r.Check(okPaths, "updateBaseFeeForNextBlock › every path after the calculation stores it", e.Pos(sets[0].Pos()), "SetBaseFee post-dominates CalculateBaseFee", "a path computes the next base fee but returns without storing it")
-		emits := callsIn(upd, false, func(c ssa.CallInstruction) bool { return isMethodNamed(c, "EmitEvents") || isMethodNamed(c, "EmitEvent") })
+		emits := callsIn(upd, false, func(c ssa.CallInstruction) bool {
+			return isMethodNamed(c, "EmitEvents") || isMethodNamed(c, "EmitEvent")
+		})
 		okEv := false
 		for _, em := range emits {
 			sl := sliceFrom(em.Common().Args[len(em.Common().Args)-1])
